@@ -2,6 +2,8 @@ package c04
 
 import (
 	"fmt"
+	"math"
+	"math/big"
 	"reflect"
 	"sort"
 	"strconv"
@@ -109,8 +111,37 @@ func parseBound(param string, isDur bool) (float64, bool) {
 	return 0, false
 }
 
-// number returns the numeric value of v (all generated numbers are far below
-// 2^53, so float64 is exact).
+// exact returns the value of a number and of a validator parameter without
+// rounding (64 bit integers and their bounds do not fit a float64).
+func exact(v reflect.Value) (*big.Float, bool) {
+	x := new(big.Float).SetPrec(256)
+	switch v.Kind() {
+	case reflect.Int, reflect.Int8, reflect.Int16, reflect.Int32, reflect.Int64:
+		return x.SetInt64(v.Int()), true
+	case reflect.Uint, reflect.Uint8, reflect.Uint16, reflect.Uint32, reflect.Uint64:
+		return x.SetUint64(v.Uint()), true
+	case reflect.Float32, reflect.Float64:
+		if f := v.Float(); !math.IsNaN(f) {
+			return x.SetFloat64(f), true
+		}
+	}
+	return nil, false
+}
+
+func exactBound(param string, isDur bool) (*big.Float, bool) {
+	if isDur {
+		if d, err := time.ParseDuration(param); err == nil {
+			return new(big.Float).SetPrec(256).SetInt64(int64(d)), true
+		}
+		b, ok := parseBound(param, true)
+		return new(big.Float).SetPrec(256).SetFloat64(b), ok
+	}
+	b, ok := new(big.Float).SetPrec(256).SetString(param)
+	return b, ok
+}
+
+// number returns the numeric value of v for tests against zero and for
+// display (rounded for integers beyond 2^53).
 func number(v reflect.Value) (float64, bool) {
 	switch v.Kind() {
 	case reflect.Int, reflect.Int8, reflect.Int16, reflect.Int32, reflect.Int64:
@@ -189,25 +220,26 @@ func violates(fv reflect.Value, t vtag) string {
 		if isNil {
 			return ""
 		}
-		n, ok := number(v)
+		n, ok := exact(v)
 		if !ok {
 			return ""
 		}
 		isDur := v.Type() == tDuration
-		b, ok := parseBound(t.param, isDur)
+		b, ok := exactBound(t.param, isDur)
 		if !ok {
 			return ""
 		}
-		show := func(x float64) string {
+		show := func(x *big.Float) string {
 			if isDur {
-				return time.Duration(x).String()
+				ns, _ := x.Int64()
+				return time.Duration(ns).String()
 			}
-			return strconv.FormatFloat(x, 'g', -1, 64)
+			return x.Text('g', 25)
 		}
-		if t.name == "min" && n < b {
+		if t.name == "min" && n.Cmp(b) < 0 {
 			return show(n) + " < " + show(b)
 		}
-		if t.name == "max" && n > b {
+		if t.name == "max" && n.Cmp(b) > 0 {
 			return show(n) + " > " + show(b)
 		}
 		return ""
@@ -249,19 +281,19 @@ func ptrShape(t reflect.Type) bool {
 }
 
 // walkValue visits v (held in the way `shape` says) and everything below it.
-func walkValue(v reflect.Value, path, shape string, out *[]finding) {
+func walkValue(v reflect.Value, path, shape, tag string, out *[]finding) {
 	switch v.Kind() {
 	case reflect.Ptr:
 		if v.IsNil() {
 			return
 		}
-		walkValue(v.Elem(), path, shape, out)
+		walkValue(v.Elem(), path, shape, tag, out)
 		return
 	case reflect.Interface:
 		if v.IsNil() {
 			return
 		}
-		walkValue(v.Elem(), path, "interface-field", out)
+		walkValue(v.Elem(), path, "interface-field", tag, out)
 		return
 	}
 	switch v.Kind() {
@@ -288,7 +320,7 @@ func walkValue(v reflect.Value, path, shape string, out *[]finding) {
 			case sf.Type.Kind() == reflect.Interface:
 				fshape = "interface-field"
 			}
-			for _, t := range parseValidate(sf.Tag.Get("validate")) {
+			for _, t := range parseValidate(sf.Tag.Get(tag)) {
 				if why := violates(fv, t); why != "" {
 					*out = append(*out, finding{fpath, t.name, fshape, fmt.Sprintf("field %s %s `%s`: %s", sf.Name, sf.Type, sf.Tag, why)})
 				}
@@ -316,7 +348,7 @@ func walkValue(v reflect.Value, path, shape string, out *[]finding) {
 			default:
 				sub = fshape
 			}
-			walkValue(fv, fpath, sub, out)
+			walkValue(fv, fpath, sub, tag, out)
 		}
 	case reflect.Slice, reflect.Array:
 		sh := "slice-elem"
@@ -324,13 +356,13 @@ func walkValue(v reflect.Value, path, shape string, out *[]finding) {
 			sh = "array-elem"
 		}
 		for i := 0; i < v.Len(); i++ {
-			walkValue(v.Index(i), join(path, strconv.Itoa(i)), sh, out)
+			walkValue(v.Index(i), join(path, strconv.Itoa(i)), sh, tag, out)
 		}
 	case reflect.Map:
 		keys := v.MapKeys()
 		sort.Slice(keys, func(i, j int) bool { return fmt.Sprint(keys[i]) < fmt.Sprint(keys[j]) })
 		for _, k := range keys {
-			walkValue(v.MapIndex(k), join(path, fmt.Sprint(k.Interface())), "map-entry", out)
+			walkValue(v.MapIndex(k), join(path, fmt.Sprint(k.Interface())), "map-entry", tag, out)
 		}
 	}
 	if err := callValidate(v); err != nil {
@@ -345,8 +377,9 @@ func chase(t reflect.Type) reflect.Type {
 	return t
 }
 
-// walk runs the oracle over a populated top-level target (pointer to struct).
-func walk(target reflect.Value) []finding {
+// walk runs the oracle over a populated top-level target (pointer to struct);
+// tag is the name of the struct tag the validators in force are declared under.
+func walk(target reflect.Value, tag string) []finding {
 	var out []finding
 	for target.Kind() == reflect.Ptr {
 		if target.IsNil() {
@@ -354,6 +387,6 @@ func walk(target reflect.Value) []finding {
 		}
 		target = target.Elem()
 	}
-	walkValue(target, "", "field", &out)
+	walkValue(target, "", "field", tag, &out)
 	return out
 }
